@@ -941,7 +941,13 @@ class BaseRepo:
 
         # Deal with shallow requests separately because the haves do
         # not reflect what objects are missing
-        if getattr(graph_walker, "shallow", set()) or unshallow:
+        # (a client that announced shallow commits of its own lacks what lies
+        # below them, even when this request adds no new boundary)
+        if (
+            getattr(graph_walker, "shallow", set())
+            or unshallow
+            or getattr(graph_walker, "client_shallow", set())
+        ):
             # TODO: filter the haves commits from iter_shas. the specific
             # commits aren't missing.
             haves = []
